@@ -55,7 +55,7 @@ SPEC = {
                  "C10_code_observers", "C10_code_walks", "C10_traversals", "C10_code_refines_run", "C10_container_list_meets_spec", "C10_code_wrappers",
                  "C10_skeleton_writers", "C10_skeleton_readers", "C10_skeleton_pushlists", "C10_skeleton_type_shapes",
                  "C10_ts_linearizable", "C10_ts_log_is_the_calls", "C10_ts_list_object", "C10_ts_list_is_sequential", "C10_ts_lock_kinds",
-                 "C10_lincheck_sound", "C10_lincheck_example", "C10_ts_no_deadlock", "C10_newlist_flavour"],
+                 "C10_lincheck_sound", "C10_lincheck_complete", "C10_lincheck_example", "C10_ts_no_deadlock", "C10_ts_writer_preference", "C10_newlist_flavour"],
     "trusted_base": [
         "harness/c10/xlate: the go/ast translator from ds/list_impl.go and GOROOT container/list into the statement language "
         "Hive/Model/DListIR.lean, and that language's interpreter (IR.exec) as the meaning of loads/stores/guards/calls; "
@@ -83,8 +83,9 @@ SPEC = {
         "(12 mutating methods under the write lock, 8 observers under the read lock; lock kinds and the one-inner-call shape are "
         "regenerated skeleton obligations); recorded histories of concurrent runs are judged by the linearizability checker linSearch "
         "(sound: C10_lincheck_sound) in the Lean driver and, independently, against container/list in Go",
-        "NOT modelled: two different thread-safe lists locking each other (lock order), a source list mutated while it is being "
-        "pushed, Prev/Next/Value of elements read concurrently with writers (lock-free atomics)"],
+        "NOT modelled in Lean: a push between two thread-safe lists as an operation on the pair (it is a reader call on the source — "
+        "snapshot, pinned by its skeleton — followed by a writer call on the target; the harness checks no panic, no deadlock and "
+        "that the block is one state of the source), Prev/Next/Value of elements read concurrently with writers (lock-free atomics)"],
     "manifest": {
         "text": "Pointer-level Lean model of ds.List (heap of prev/next/owner/val nodes, two sentinel rings, the same loads/stores as "
                 "insert/remove/move) with theorems over every history: the ring well-formedness invariant is preserved "
@@ -115,6 +116,6 @@ SPEC = {
     },
     "assumptions": ["no operation is given a handle that was live in a list when Init was called on that list (okRun) - for the "
                     "refinement-to-specification theorems only; the C10_code_* theorems are unconditional",
-                    "concurrent use: one thread-safe list whose whole-list-push sources are not mutated during the push; each wrapper "
-                    "method is lock / one inner call / deferred unlock (regenerated obligation)"],
+                    "concurrent use (theorems): one thread-safe list; each wrapper method is lock / one inner call / deferred unlock "
+                    "(regenerated obligation); a source that is another thread-safe list enters as the snapshot it was read as"],
 }
